@@ -104,7 +104,7 @@ class BoundRoutine(tp.Generic[P, R]):
     binding: AbstractBinding[P]
     """The parameter->type binding."""
 
-    def __call__(self, *args: tp.Any, **kwargs: tp.Any) -> R:
+    def __call__(self, /, *args: tp.Any, **kwargs: tp.Any) -> R:
         """Binding an input to the parameters of `call`,
 
         then call the callable and return the result."""
